@@ -14,7 +14,7 @@ MANIFEST = dict(
     technique="Lean 4 proof over a hand-written model + differential correspondence run with real witness child processes",
     design="5/C20",
 )
-GEN: list[str] = ["HostEnv", "Cli"]
+GEN: list[str] = ["HostEnv", "Cli", "Legacy"]
 THEOREMS = [
     "c20_load_configured",
     "c20_launch_exact",
@@ -30,7 +30,7 @@ THEOREMS = [
     "c20_host_translated", "c20_default_env_sound", "c20_default_env_complete", "c20_nothing_else_leaks",
     "c20_child_env_exact", "c20_cli_defaults", "c20_cli_value_option", "c20_cli_flags", "c20_cli_missing_value",
     "c20_cli_discovery_first", "c20_cli_discovery_none", "c20_cli_decision", "c20_cli_nothing_launched",
-    "c20_cli_launch_exact",
+    "c20_cli_launch_exact", "c20_legacy_translated", "c20_legacy_aliases_same_object",
 ]
 RULE = (
     "generated configuration documents (1..4 servers; every 5th document uses BARE command names: copies of one witness "
@@ -170,6 +170,10 @@ def decorate(rng, case):
         if us != "absent":
             c["user_specified"] = {"none": None, "empty": [], "first": c["names"][:1], "all": list(c["names"]),
                                    "ghost": ["ghost"]}[us]
+    if e == "loader" and rng.random() < 0.4:
+        c["legacy"] = rng.choice(["names", "modules", "transport", "asyncgen"])
+    if e == "runner" and rng.random() < 0.3:
+        c["legacy"] = "names"
     if rng.random() < 0.12 and c["expect"] == "valid":
         c["repeat"] = 2
     if rng.random() < 0.15:
@@ -415,6 +419,9 @@ class Entry(Suite):
             out.append({"entry": "cliMain", "file": "ok", "doc": d0, "names": ["sqlite"], "expect": "valid", "main_mode": mode,
                         "cfgname": "server_config.json" if mode == "discover" else "config.json", "verbose": mode == "short",
                         "witness_mode": WITNESS_MODES[2 + (mode == "short")]})
+        for lg in ("names", "modules", "transport", "asyncgen"):
+            out.append({"entry": "loader", "file": "ok", "doc": d1, "names": ["b"], "expect": "valid", "legacy": lg})
+        out.append({"entry": "runner", "file": "ok", "doc": d3, "names": ["p", "q"], "expect": "valid", "legacy": "names"})
         for cf in ("interactive_mode", "chat_run", "raises"):
             out.append({"entry": "runner", "file": "ok", "doc": d3, "names": ["q", "p", "r"], "expect": "valid", "cmdfunc": cf,
                         "user_specified": ["p"], "repeat": 2 if cf == "chat_run" else 1})
@@ -433,7 +440,7 @@ class Entry(Suite):
                 out += [decorate(rng, c) for c in malformed_cases(rng, doc)]
         cov = {}
         for c in out:
-            for k in ("style", "cfgname", "main_mode", "cmdfunc", "verbose", "repeat"):
+            for k in ("style", "cfgname", "main_mode", "cmdfunc", "verbose", "repeat", "legacy"):
                 if k in c:
                     cov[f"{k}={c[k]}"] = cov.get(f"{k}={c[k]}", 0) + 1
             if "witness_mode" in c:
@@ -588,7 +595,7 @@ class Entry(Suite):
         return case["expect"] == "valid"
 
     def shrink_candidates(self, case):
-        for k in ("host_env", "repeat", "witness_mode", "verbose", "user_specified", "cmdfunc", "style", "cfgname", "cfgdir"):
+        for k in ("legacy", "host_env", "repeat", "witness_mode", "verbose", "user_specified", "cmdfunc", "style", "cfgname", "cfgdir"):
             if k in case and not (k == "cfgname" and case.get("main_mode") == "discover"):
                 yield {a: b for a, b in case.items() if a != k}
         if case.get("main_mode") not in (None, "explicit"):
@@ -790,8 +797,18 @@ class Cli(Suite):
             {"argv": ["-c", "@ABS/custom.json"], "present": {"abs:custom.json": None},
              "intent": {"config": "abs:custom.json", "server": "sqlite", "list": False, "broken": None}},
         ]
+        listing = {"config": "abs:custom.json", "server": "sqlite", "list": True, "broken": None}
+        out += [
+            {"argv": ["-l", "-c", "@ABS/custom.json"], "present": {"abs:custom.json": None}, "intent": listing},          # not JSON
+            {"argv": ["--list-servers", "--config", "@ABS/custom.json"], "present": {"abs:my conf.json": doc}, "intent": listing},  # missing
+            {"argv": ["-l", "-c", "@ABS/custom.json"], "present": {"abs:custom.json": {"mcpServers": {}}}, "intent": listing},
+            {"argv": ["-l", "-c", "@ABS/custom.json"], "present": {"abs:custom.json": {"servers": 1}}, "intent": listing},
+        ]
         n = {"quick": 40, "thorough": 600, "search": 150}[budget]
         out += [gen_cli_case(rng) for _ in range(n)]
+        for i, c in enumerate(out):
+            if i % 2:
+                c["via"] = "run"
         return out
 
     def impl_batch(self, cases):
@@ -874,6 +891,9 @@ def extra(ctx, tier):
     """supplementary correspondences: differences are informational (evidence notes), see EXTEND rule 3"""
     for s in _SUPP:
         n = len(getattr(s, "mismatches", []))
+        if n and tier != "search":
+            print(f"# C20 supplementary correspondence '{s.name}' differs from the model on {n}+ input(s) (informational): "
+                  + canon(s.mismatches[0])[:300])
         ctx.notes.append(f"supplementary correspondence '{s.name}': {n} difference(s) between implementation and model"
                          + (": " + canon(s.mismatches[0])[:600] if n else ""))
 
